@@ -515,6 +515,38 @@ def readers(ctx, R="R-C11-readers"):
     txt = astq.text(f.node)
     ctx.check("np.fromfile(rfilename, dtype=dtype, **kwargs)" in txt and "np.fromfile(rfilename, **kwargs)" in txt, R, f, f.node,
               "raw binary: dtype is the interpretation of the bytes (np.fromfile(dtype=dtype))", structural=True)
+    # value form: when a dtype is requested, the bytes are *interpreted* as that type (a later cast of bytes read as float64 is
+    # a different array, of a different length)
+    try:
+        f, ev, val = _reader_value(prog, "_numpy_fromfile_read_signal")
+        what = "raw binary: a requested dtype is how np.fromfile interprets the bytes, not a cast applied afterwards"
+        decided = None
+        for tests, leaf in cc.strip_cond(val):
+            given = [l for l, t in tests if S.show(t) in ("dtype", "(dtype is not None)")] + [("F" if l == "T" else "T") for l, t in tests if S.show(t) == "(dtype is None)"]
+            if "F" in given or any(S.show(t) not in ("dtype", "(dtype is not None)", "(dtype is None)") for l, t in tests):
+                continue
+            calls = [x for x in S.walk(leaf) if isinstance(x, S.E) and x.op == "call" and x.args[0] in ("np.fromfile", "numpy.fromfile")]
+            if len(calls) != 1:
+                decided = None
+                break
+            c_ = calls[0]
+            has = any(cc.is_call(a, "kw:dtype") and a.args[1] == S.sym("dtype") for a in c_.args[1:] if isinstance(a, S.E)) or (len(c_.args) > 2 and c_.args[2] == S.sym("dtype"))
+            anyd = any(cc.is_call(a, "kw:dtype") for a in c_.args[1:] if isinstance(a, S.E)) or (len(c_.args) > 2 and not (isinstance(c_.args[2], S.E) and c_.args[2].op == "call" and str(c_.args[2].args[0]).startswith("kw:")))
+            if has:
+                decided = True if decided is None else decided
+            elif not anyd:
+                decided = False
+                ctx.bad(R, f, f.node, "with a dtype requested, the raw-binary reader returns %s: the bytes are interpreted as numpy's default float64 whatever the "
+                        "caller asked for (a file of int16 / float32 samples comes back with the wrong length and values, even if it is cast later)" % S.show(leaf)[:120],
+                        what, robust=True)
+                break
+            else:
+                decided = None
+                break
+        if decided is True:
+            ctx.ok(R, f.loc(), what, "returned value carries dtype=dtype when a dtype is given")
+    except AnalysisError:
+        pass
     f = prog.func("util._torch_read_signal")
     txt = astq.text(f.node)
     ctx.check("torch.load(rfilename, map_location='cpu', **kwargs).numpy()" in txt, R, f, f.node, "pt: the tensor is loaded on the CPU and viewed as an array", structural=True)
